@@ -153,6 +153,13 @@ def instantiate_slice(fam, adecls, rng, prefix, lifts=1):
                 out.append(VL.instantiate_float(ad, "f64", "%s%04d_f64" % (prefix, i)))
         else:
             d = VL.instantiate_plain(ad, "%s%04d" % (prefix, i))
+            if fam == "string" and i % 3:
+                # the model's length bounds (1, 2) are lifted order-preservingly (1 -> 1, 2 -> 4 or 1 -> 2, 2 -> 5), so that
+                # gaps wider than one character between `len_char_min` and `len_char_max` are replayed too
+                m = {1: 1, 2: 4} if i % 3 == 1 else {1: 2, 2: 5}
+                for r in d["val"]:
+                    if r["k"] in ("len_char_min", "len_char_max"):
+                        r["b"] = m.get(r["b"], r["b"])
             out.append(d)
     return out
 
